@@ -80,7 +80,37 @@ func checkC20(c *Ctx) {
 				ok, why = false, fmt.Sprintf("the ticks of a 32nd note are computed as %s, a 32nd note is resolution/8 ticks", fv.Mono)
 			}
 		}
-		c.Check(ok && n > 0, "C20.7", "ticks of a 32nd note = resolution / 8", p.Pos(t32.Pos()), "symbolic resolution: Round(resolution/8)", why)
+		okDetail := "symbolic resolution: Round(resolution/8)"
+		if !ok || n == 0 {
+			// second form of the same question, on the domain the property states ("all resolutions divisible by 8"):
+			// resolution = 8k with k symbolic, the result must be k — whatever integer or floating-point route is taken
+			ex2 := NewExec(p)
+			st2 := ex2.NewState()
+			k := mkSym(ex2.syms.Get("k", 16, false))
+			st2.refineSym(k.T.Syms[0], 1, 8191)
+			q8 := st2.Arith(token.MUL, k, mkConst(8, 16, false), "")
+			ok2, n2, why2 := true, 0, ""
+			for _, o := range ex2.Call(st2, t32, []Val{q8}, nil) {
+				n2++
+				if o.Panic {
+					ok2, why2 = false, o.Msg
+					continue
+				}
+				iv, _ := o.Ret[0].(*IntV)
+				if iv == nil || !o.St.sameInt(iv, o.St.Convert(k, iv.W, iv.Signed)) {
+					ok2, why2 = false, "resolution = 8k: the ticks of a 32nd note are "+valString(o.Ret[0])+", not k"
+				}
+			}
+			for u := range ex2.Unsupported {
+				ok2, why2 = false, "unmodelled construct: "+u
+			}
+			if ok2 && n2 > 0 && !ex2.Budget {
+				ok, n, okDetail = true, n2, "resolution = 8k with k symbolic in 1..8191: the result is k"
+			} else {
+				why += "; " + why2
+			}
+		}
+		c.Check(ok && n > 0, "C20.7", "ticks of a 32nd note = resolution / 8", p.Pos(t32.Pos()), okDetail, why)
 	}
 	// ---- C20.1
 	c.Fn(FuncName(barLen))
